@@ -458,6 +458,11 @@ class BasicReadStatementPatcherVisitor(BasicConstructVisitor):
             for outval, inval in rhs_to_temp.items()
         ]
 
+        # The filter calls run after the READ, so their own temporaries must
+        # not reuse the temporaries that hold the values that were just read
+        for filter_statement in filter_statements:
+            filter_statement.reserve_temps(statement)
+
         return BasicStatements([statement] + filter_statements, multi_line=False)
 
 
